@@ -226,6 +226,40 @@ def same_value(dt, v, back):
   return False
 
 
+def file_roundtrip(line, name, version, vlevel):
+  """(value, datatype) of tag `name` after Gfa.to_file / Gfa.from_file of a
+  Gfa holding a copy of the line; a string if that fails; None if the line
+  cannot stand alone in a Gfa."""
+  import tempfile, os
+  try:
+    g = gfapy.Gfa(version=version, vlevel=vlevel)
+    text = str(line)
+    if text.startswith("E"):
+      g.add_line("S\ta\t1\t*")
+      g.add_line("S\tb\t1\t*")
+    c = gfapy.Line(text, version=version, vlevel=max(vlevel, 1))
+    g.add_line(c)
+  except gfapy.Error:
+    return None
+  fd, path = tempfile.mkstemp(prefix="gfamc_c20_", suffix=".gfa", dir="/tmp")
+  os.close(fd)
+  try:
+    try:
+      g.to_file(path)
+      g2 = gfapy.Gfa.from_file(path, version=version, vlevel=max(vlevel, 1))
+    except gfapy.Error as e:
+      return "{}: {}".format(type(e).__name__, str(e).split("\n")[0][:80])
+    for l in g2.lines:
+      if name in l.tagnames and str(l).split("\t")[0] == text.split("\t")[0]:
+        return (l.get(name), l.get_datatype(name))
+    return "the tag is not in the file that was written"
+  finally:
+    try:
+      os.unlink(path)
+    except OSError:
+      pass
+
+
 def one_case(kind, d, dt, name, version, host, vlevel):
   """returns (outcome, [(clause, detail)])"""
   probs = []
@@ -309,6 +343,20 @@ def one_case(kind, d, dt, name, version, host, vlevel):
       probs.append(("datatype-changed", "{} -> {}".format(edt, bdt)))
     elif not same_value(edt, v, back):
       probs.append(("value-changed", "{!r} -> {!r} ({})".format(v, back, tag)))
+    if kind == "str" and vlevel in (0, 1) and not host.startswith("H") \
+        and not probs:
+      # the same through a file: Gfa.to_file / Gfa.from_file (the tag is the
+      # last field of its line)
+      fr = file_roundtrip(line, name, version, vlevel)
+      if fr is not None:
+        if isinstance(fr, str):
+          probs.append(("file-roundtrip-fails", fr))
+        elif fr[1] != edt:
+          probs.append(("datatype-changed", "through a file: {} -> {}".format(
+              edt, fr[1])))
+        elif not same_value(edt, v, fr[0]):
+          probs.append(("value-changed", "through a file: {!r} -> {!r}".format(
+              v, fr[0])))
     return "roundtrip", probs
   else:
     if vlevel >= 2 and wr_err is None and not flagged:
